@@ -31,6 +31,9 @@ fn features(acc: &mut Acc, s: &[AResponse]) {
         }
         if r.error.is_some() {
             acc.inc("errors");
+            if r.partial.is_some() {
+                acc.inc("errors_after_partial_output");
+            }
         }
         for f in &r.frames {
             if let Some((_, b)) = &f.binary {
@@ -148,7 +151,7 @@ impl Property for C03 {
             rule: "random abstract sessions of 1-6 responses (0-8 frames, 0-30 fields, keyword-like keys/values, empty/non-ASCII/CR/NUL/10 KiB values, <=1 binary part per frame at any position with hostile payloads, ACK errors incl. u64::MAX codes, single and list form; every 16th session lands on a 4096*2^k buffer edge) encoded by the harness's reference encoder and decoded by the real blocking and async connections under whole, byte-at-a-time and random segmentation; compared structurally through the public API incl. Ok(None) after the last response; non-trivial = session with >=2 responses or a binary part or an error; distinct by hash of the encoded bytes".into(),
             nontrivial_set: "nontrivial",
             assumptions: vec![
-                "normalisation at the protocol's non-injective points: one-frame list form == single form; successful empty list == one empty frame; a failing single command has no frame".into(),
+                "normalisation at the protocol's non-injective points: one-frame list form == single form; successful empty list == one empty frame; a failing command has no frame (output it printed before its ACK belongs to no successful command and is dropped)".into(),
                 "field `binary` is only generated with a non-numeric value (a numeric one is a binary header by definition)".into(),
                 "a binary part's position among the fields of its frame is not observable through the API and not compared".into(),
             ],
@@ -156,6 +159,7 @@ impl Property for C03 {
             floors: vec![
                 ("binary_payloads".into(), 20),
                 ("list_with_error".into(), 5),
+                ("errors_after_partial_output".into(), 5),
                 ("responses_after_binary".into(), 5),
                 ("responses_after_error".into(), 5),
                 ("keyword_like_values".into(), 5),
